@@ -20,7 +20,7 @@ CLAUSE = {'R': 'RoundTripCompletes', 'OU': 'OriginalUntouched', 'T': 'SameText',
           'ST': 'ScopesReattached:types', 'EQ': 'Equal:__eq__', 'EH': 'Equal:__hash__'}
 
 
-TAGSET = {'ow': 'owners', 'mp': 'memparent', 'mt': 'memtab', 'ca': 'calls', 'td': 'tdef'}
+TAGSET = {'ow': 'owners', 'mp': 'memparent', 'mt': 'memtab', 'ca': 'calls', 'td': 'tdef', 'np': 'nparent', 'no': 'nown'}
 
 
 def expand(code):
